@@ -447,6 +447,33 @@ caller suppressed): the live objects keep what a load may lose -/
 def RCfg.inPlace (rc : RCfg) : RCfg :=
   { rc with silentRelink := true, faithfulOrder := true, keepCompositeCache := true }
 
+/-! A failure does not only happen inside a run of the outermost graph: a child can be run or pulled by hand
+while its parent is idle, and nodes are run while a graph is being assembled (injected nodes auto-run at creation;
+a for-loop builds and feeds its body before it is flagged running).  The exception then climbs only through the
+ancestors that ARE running — an idle parent is not failed by it. -/
+
+/-- the nodes failed by a raise in `k` when `running` are the nodes executing at that moment -/
+def Forest.chainR (f : Forest) (running : Nat → Bool) : Nat → Nat → List Nat
+  | 0, n => [n]
+  | fuel + 1, n => match f.parent n with
+    | none => [n]
+    | some p => if running p then n :: f.chainR running fuel p else [n]
+
+/-- a failure event: the node that raised and who was running then -/
+structure FailEv where
+  node : Nat
+  running : Nat → Bool
+
+/-- the recovery files after a history of failure events: the guard asks about OWNERSHIP (`graph_root is self`)
+only, never about who is running -/
+def Forest.recoveryFilesEv (f : Forest) (fuel : Nat) (nodes : List Nat) (evs : List FailEv) : List Nat :=
+  nodes.filter (fun n => evs.any (fun e => (f.chainR e.running fuel e.node).contains n) && f.writesRecovery fuel n)
+
+/-- the variant "`not parent_is_running`" of the guard (seeded change C08-9): who writes depends on the run state -/
+def Forest.recoveryFilesPR (f : Forest) (fuel : Nat) (nodes : List Nat) (evs : List FailEv) : List Nat :=
+  nodes.filter (fun n => evs.any (fun e => (f.chainR e.running fuel e.node).contains n &&
+    f.recovery n && !(match f.parent n with | some p => e.running p | none => false)))
+
 /-- the directory a checkpoint of child `c` goes to -/
 def Forest.checkpointDir (f : Forest) (fuel : Nat) (c : Nat) : Nat := f.root fuel c
 
